@@ -554,12 +554,14 @@ impl<'a, T: IteTable<'a, BddPtr<'a>> + Default> Session<'a, T> {
                                 x.semantic_hash(&map),
                                 x.neg().semantic_hash(&map),
                                 x.cached_semantic_hash(&order, &map),
+                                x.neg().cached_semantic_hash(&order, &map),
                             )
                         })
-                        .map(|(v, n, c)| {
+                        .map(|(v, n, c, nc)| {
                             ev["limbs"] = json!(limbs(v.value()));
                             ev["nlimbs"] = json!(limbs(n.value()));
                             ev["climbs"] = json!(limbs(c.value()));
+                            ev["nclimbs"] = json!(limbs(nc.value()));
                         })
                     }
                 }
@@ -919,7 +921,7 @@ pub fn run_segment<'a, T: IteTable<'a, BddPtr<'a>> + Default>(
                 }
                 match guarded(|| fresh_answer(&order, &before, &sm, nv, ns, r0, mode)) {
                     Ok(f) => {
-                        for k in ["val", "model", "limbs", "nlimbs", "climbs", "shape", "panic"] {
+                        for k in ["val", "model", "limbs", "nlimbs", "climbs", "nclimbs", "shape", "panic"] {
                             if let Some(v) = f.get(k) {
                                 e[format!("f_{k}")] = v.clone();
                             }
